@@ -532,6 +532,17 @@ def run(pin=False, verbose=False):
     for fn, text in render("Generated", data).items():
         if _write_if_changed(os.path.join(LEAN, "Generated", fn), text):
             changed.append("Generated/" + fn)
+    # T1-f: small pure functions translated to Lean (harness/pyfun2lean.py)
+    import pyfun2lean
+    funcs = pyfun2lean.translate_functions()
+    data["funcs"] = funcs
+    if _write_if_changed(os.path.join(LEAN, "Generated", "Funcs.lean"), pyfun2lean.render("Generated", funcs)):
+        changed.append("Generated/Funcs.lean")
+    if pin:
+        for fn, text in (("Pinned/Funcs.lean", pyfun2lean.render("Pinned", funcs)), ("Bridge/Funcs.lean", pyfun2lean.render_bridge(funcs)),
+                         ("Driver/Funcs.lean", pyfun2lean.render_driver(funcs))):
+            if _write_if_changed(os.path.join(LEAN, fn), text):
+                changed.append(fn)
     if pin:
         for fn, text in render("Pinned", data).items():
             if _write_if_changed(os.path.join(LEAN, "Pinned", fn), text):
@@ -539,6 +550,7 @@ def run(pin=False, verbose=False):
         if _write_if_changed(os.path.join(LEAN, "Bridge", "All.lean"), render_bridge(data)):
             changed.append("Bridge/All.lean")
     errs = {n: e["error"] for n, e in data["regexes"].items() if "error" in e}
+    errs.update({"fn:" + n: e["error"] for n, e in funcs.items() if "error" in e})
     if verbose:
         print(json.dumps({"changed": changed, "untranslated": errs}, indent=1))
     return data, changed, errs
